@@ -39,6 +39,11 @@ type fctx struct {
 	// body (0: the top-level statement list).
 	depth   int
 	inDefer bool
+	// nonBlocking: walking the communication of a select with a default clause.
+	nonBlocking bool
+	// drained maps a channel to the acquisitions (seq) under which it was
+	// drained by a non-blocking receive loop in this function.
+	drained map[types.Object][]int
 	// beginErr is the error variable of the Begin call of the previous
 	// statement, beginClass the pseudo-lock it would hold.
 	beginErr   types.Object
@@ -59,7 +64,7 @@ func (a *analysis) newCtx(fi *funcInfo, name string, pkg *packages.Package) *fct
 		a: a, fi: fi, pkg: pkg, info: pkg.TypesInfo, name: name, may: map[int]bool{},
 		aliases: map[types.Object]*pathRef{}, fresh: map[types.Object]bool{}, multi: map[types.Object]int{},
 		lits: map[types.Object]*ast.FuncLit{}, dbOwner: map[types.Object]string{}, txClass: map[types.Object]int{},
-		boltRows: map[int]*acqSite{},
+		boltRows: map[int]*acqSite{}, drained: map[types.Object][]int{},
 	}
 }
 
@@ -239,6 +244,7 @@ func (c *fctx) stmt(s ast.Stmt) (terminated bool) {
 	case *ast.SendStmt:
 		c.expr(s.Chan)
 		c.expr(s.Value)
+		c.chanOp(s.Chan, "send", s.Pos())
 	case *ast.IncDecStmt:
 		c.lhs(s.X)
 	case *ast.AssignStmt:
@@ -280,6 +286,13 @@ func (c *fctx) stmt(s ast.Stmt) (terminated bool) {
 	case *ast.IfStmt:
 		return c.ifStmt(s)
 	case *ast.ForStmt:
+		if ch := c.drainLoop(s); ch != nil {
+			for _, l := range c.must {
+				if !l.outer {
+					c.drained[ch] = append(c.drained[ch], l.seq)
+				}
+			}
+		}
 		c.stmt(s.Init)
 		if s.Cond != nil {
 			c.expr(s.Cond)
@@ -301,6 +314,11 @@ func (c *fctx) stmt(s ast.Stmt) (terminated bool) {
 		}
 	case *ast.RangeStmt:
 		c.expr(s.X)
+		if tv, ok := c.info.Types[s.X]; ok {
+			if _, isChan := types.Unalias(tv.Type).Underlying().(*types.Chan); isChan {
+				c.chanOp(s.X, "recv", s.Pos())
+			}
+		}
 		entry := c.snap()
 		c.loops = append(c.loops, copyLocks(c.must))
 		term := c.block(s.Body.List)
@@ -338,6 +356,12 @@ func (c *fctx) clauses(list []ast.Stmt, implicitDefault bool) (terminated bool) 
 	entry := c.snap()
 	var exits []snapshot
 	hasDefault := false
+	selDefault := false
+	for _, cl := range list {
+		if cc, ok := cl.(*ast.CommClause); ok && cc.Comm == nil {
+			selDefault = true
+		}
+	}
 	// inside switch/select, an unlabeled break leaves the clause, not a loop
 	c.loops = append(c.loops, copyLocks(c.must))
 	defer func() { c.loops = c.loops[:len(c.loops)-1] }()
@@ -357,7 +381,10 @@ func (c *fctx) clauses(list []ast.Stmt, implicitDefault bool) (terminated bool) 
 			if cl.Comm == nil {
 				hasDefault = true
 			} else {
+				saved := c.nonBlocking
+				c.nonBlocking = selDefault
 				c.stmt(cl.Comm)
+				c.nonBlocking = saved
 			}
 			body = cl.Body
 		}
@@ -778,12 +805,14 @@ func (c *fctx) lockOp(call *ast.CallExpr, try bool) {
 		if !try {
 			c.markNonLeaf()
 			for h := range c.may {
-				c.a.edge(h, lk.class, c.a.pos(call.Pos()))
+				c.a.edgeInst(h, lk.class, c.declName(), c.declName(), c.a.pos(call.Pos()))
 			}
 			if !c.detached {
 				c.a.noteDirect(c.fi.obj, lk.class)
 			}
 		}
+		c.a.seq++
+		lk.seq = c.a.seq
 		c.must = append(c.must, *lk)
 		c.may[lk.class] = true
 	case "Unlock", "RUnlock":
@@ -818,6 +847,28 @@ func (a *analysis) edge(from, to int, pos string) {
 		a.edgePos[k] = map[string]bool{}
 	}
 	a.edgePos[k][pos] = true
+}
+
+// edgeInst records one instance of a lock-order edge: the function that holds
+// `from` at that point and the function that acquires `to`.
+func (a *analysis) edgeInst(from, to int, holder, acquirer, pos string) {
+	a.edge(from, to, pos)
+	k := [2]int{from, to}
+	if a.edgeInsts[k] == nil {
+		a.edgeInsts[k] = map[[2]string]string{}
+	}
+	ik := [2]string{holder, acquirer}
+	if _, ok := a.edgeInsts[k][ik]; !ok {
+		a.edgeInsts[k][ik] = pos
+	}
+}
+
+func (c *fctx) declName() string {
+	if c.fi != nil {
+		return c.fi.name
+	}
+
+	return c.name
 }
 
 func (a *analysis) noteDirect(f *types.Func, class int) {
@@ -1214,6 +1265,12 @@ func (c *fctx) expr(e ast.Expr) {
 		}
 		c.expr(e.X)
 	case *ast.UnaryExpr:
+		if e.Op == token.ARROW {
+			c.expr(e.X)
+			c.chanOp(e.X, "recv", e.Pos())
+
+			return
+		}
 		if e.Op == token.AND {
 			if pr := c.resolve(e.X); pr != nil && len(pr.segs) > 0 {
 				for _, x := range pr.side {
@@ -1368,7 +1425,7 @@ func (c *fctx) accessorCall(call *ast.CallExpr, acc *cfgAccessor) {
 	root, base, path := c.a.rootOf(lpr)
 	c.markNonLeaf()
 	for h := range c.may {
-		c.a.edge(h, cl.id, c.a.pos(call.Pos()))
+		c.a.edgeInst(h, cl.id, c.declName(), c.declName(), c.a.pos(call.Pos()))
 	}
 	if !c.detached {
 		c.a.noteDirect(c.fi.obj, cl.id)
@@ -1515,7 +1572,7 @@ func (c *fctx) callTargets(call *ast.CallExpr, isGo bool, _ []*ast.FuncLit, top 
 					may = append(may, k)
 				}
 				sort.Ints(may)
-				pe := pendingEdge{may: may, callee: t, pos: c.a.pos(call.Pos())}
+				pe := pendingEdge{may: may, callee: t, pos: c.a.pos(call.Pos()), holder: c.declName()}
 				for cl, row := range c.boltRows {
 					if c.may[cl] {
 						pe.rows = append(pe.rows, row)
@@ -1540,6 +1597,15 @@ func (c *fctx) callTargets(call *ast.CallExpr, isGo bool, _ []*ast.FuncLit, top 
 		}
 		if !isGo && !top {
 			site.held = c.mapToCallee(call, t)
+		}
+		if !isGo {
+			site.mayCls = map[int]bool{}
+			for k := range c.may {
+				site.mayCls[k] = true
+			}
+			for _, l := range c.must {
+				site.mayCls[l.class] = true
+			}
 		}
 		c.a.sites = append(c.a.sites, site)
 	}
@@ -1804,7 +1870,7 @@ func (c *fctx) boltCall(call *ast.CallExpr) bool {
 		c.markNonLeaf()
 		if !exempt {
 			for h := range c.may {
-				c.a.edge(h, cl.id, c.a.pos(call.Pos()))
+				c.a.edgeInst(h, cl.id, c.declName(), c.declName(), c.a.pos(call.Pos()))
 			}
 			if !c.detached {
 				c.a.noteDirect(c.fi.obj, cl.id)
@@ -1828,7 +1894,7 @@ func (c *fctx) boltCall(call *ast.CallExpr) bool {
 				c.txClass[c.pendingTx] = rw.id
 			}
 			// a commit that has to grow the file remaps: bolt.rwlock -> bolt.mmaplock
-			c.a.edge(rw.id, mm.id, c.a.pos(call.Pos())+" (commit remaps)")
+			c.a.edgeInst(rw.id, mm.id, c.declName(), c.declName(), c.a.pos(call.Pos())+" (commit remaps)")
 		} else {
 			c.may[mm.id] = true
 			c.beginClass = mm.id
@@ -1843,7 +1909,7 @@ func (c *fctx) boltCall(call *ast.CallExpr) bool {
 		if !write {
 			cl = mm
 		} else {
-			c.a.edge(rw.id, mm.id, c.a.pos(call.Pos())+" (commit remaps)")
+			c.a.edgeInst(rw.id, mm.id, c.declName(), c.declName(), c.a.pos(call.Pos())+" (commit remaps)")
 		}
 		had := c.may[cl.id]
 		c.may[cl.id] = true
@@ -1890,7 +1956,7 @@ func (c *fctx) callTargetsOfValue(arg ast.Expr) {
 			may = append(may, k)
 		}
 		sort.Ints(may)
-		c.a.pending = append(c.a.pending, pendingEdge{may: may, callee: f.Origin(), pos: c.a.pos(arg.Pos())})
+		c.a.pending = append(c.a.pending, pendingEdge{may: may, callee: f.Origin(), pos: c.a.pos(arg.Pos()), holder: c.declName()})
 	}
 }
 
@@ -1916,4 +1982,124 @@ func (c *fctx) markNonLeaf() {
 			row.nonLeaf = true
 		}
 	}
+}
+
+// ---------------------------------------------------------------- channels
+
+// chanObj names the channel an expression denotes: a struct field or a variable.
+func (c *fctx) chanObj(e ast.Expr) (obj types.Object, name string) {
+	e = ast.Unparen(e)
+	switch e := e.(type) {
+	case *ast.Ident:
+		obj = c.objOf(e)
+		if obj == nil {
+			return nil, ""
+		}
+
+		return obj, "var " + c.declName() + "." + e.Name
+	case *ast.SelectorExpr:
+		if s := c.info.Selections[e]; s != nil && s.Kind() == types.FieldVal {
+			owner := ""
+			cur := s.Recv()
+			idx := s.Index()
+			for _, i := range idx[:len(idx)-1] {
+				if st, ok := deref(cur).Underlying().(*types.Struct); ok {
+					cur = st.Field(i).Type()
+				}
+			}
+			owner = shortNamed(namedOf(cur))
+
+			return s.Obj(), owner + "." + s.Obj().Name()
+		}
+	case *ast.CallExpr:
+		// a channel returned by a call (ctx.Done(), time.After(…), t.C is a field)
+		return nil, "call " + exprString(e.Fun)
+	}
+
+	return nil, "expr"
+}
+
+func exprString(e ast.Expr) string {
+	switch e := ast.Unparen(e).(type) {
+	case *ast.Ident:
+		return e.Name
+	case *ast.SelectorExpr:
+		return exprString(e.X) + "." + e.Sel.Name
+	case *ast.CallExpr:
+		return exprString(e.Fun) + "()"
+	}
+
+	return "?"
+}
+
+// chanOp records a potentially blocking channel operation.
+func (c *fctx) chanOp(ch ast.Expr, op string, p token.Pos) {
+	if c.nonBlocking || c.a.collecting {
+		return
+	}
+	obj, name := c.chanObj(ch)
+	site := &chanOpSite{fn: c.declName(), detached: c.detached, ch: name, chObj: obj, op: op, pos: c.a.pos(p),
+		held: map[int]bool{}, init: c.initFn}
+	if c.fi != nil {
+		site.fobj = c.fi.obj
+	}
+	for k := range c.may {
+		site.held[k] = true
+	}
+	for _, l := range c.must {
+		site.held[l.class] = true
+		if !l.outer && obj != nil {
+			for _, sq := range c.drained[obj] {
+				if sq == l.seq {
+					site.drained = append(site.drained, c.a.classByID(l.class))
+				}
+			}
+		}
+	}
+	c.a.chanOps = append(c.a.chanOps, site)
+}
+
+// drainLoop recognises `for { select { case <-ch: default: break/return } }`
+// (possibly labelled) and returns the channel drained.
+func (c *fctx) drainLoop(s *ast.ForStmt) types.Object {
+	if s.Init != nil || s.Cond != nil || s.Post != nil || len(s.Body.List) != 1 {
+		return nil
+	}
+	st := s.Body.List[0]
+	if ls, ok := st.(*ast.LabeledStmt); ok {
+		st = ls.Stmt
+	}
+	sel, ok := st.(*ast.SelectStmt)
+	if !ok || len(sel.Body.List) != 2 {
+		return nil
+	}
+	var ch types.Object
+	hasDefault := false
+	for _, cl := range sel.Body.List {
+		cc := cl.(*ast.CommClause)
+		if cc.Comm == nil {
+			hasDefault = true
+
+			continue
+		}
+		var rx ast.Expr
+		switch cm := cc.Comm.(type) {
+		case *ast.ExprStmt:
+			rx = cm.X
+		case *ast.AssignStmt:
+			if len(cm.Rhs) == 1 {
+				rx = cm.Rhs[0]
+			}
+		}
+		u, ok := ast.Unparen(rx).(*ast.UnaryExpr)
+		if !ok || u.Op != token.ARROW {
+			return nil
+		}
+		ch, _ = c.chanObj(u.X)
+	}
+	if !hasDefault {
+		return nil
+	}
+
+	return ch
 }
